@@ -1,11 +1,100 @@
-/- BDS 6,2 — crates/rs1090/src/decode/bds/bds62.rs   (STUB: not modelled yet) -/
+/-
+BDS 6,2 target state and status — crates/rs1090/src/decode/bds/bds62.rs
+
+`TargetStateAndStatusInformation` is the payload of `ME::BDS62` (`#[deku(id = "29")]`, plain id:
+the reader continues after the 5-bit type code).  The `subtype` (2 bits) is read but never tested:
+subtype 0 / 2 / 3 payloads are decoded with the subtype-1 layout.
+
+Layout (ME bits): 5 subtype(2) | 7 pad(1) | 8 source(1) | 9 sel_alt(11) | 20 qnh(9) | 29 hdg_status(1)
+| 30 hdg(9) | 39 NACp(4) | 43 NICbaro(1) | 44 SIL(2) | 46 mode_status(1) | 47 autopilot | 48 vnav |
+49 alt_hold | 50 imf | 51 approach | 52 tcas | 53 lnav | 54 pad(2).
+-/
 import Rs1090.Model.Decode.Common
 namespace Rs1090.Model.Bds62
 open Rs1090 Rs1090.Model
 
-/-- STUB -/
-def modelled : Bool := false
+def modelled : Bool := true
 
-def read : R SerFields := R.fail .other
+/-! ### Pure field conversions -/
+
+/-- `selected_altitude` (u16, overflow-checked):
+    `if altitude > 1 { Some(((altitude - 1) * 32 + 16) / 100 * 100) } else { None }` -/
+def selectedAltitude (altitude : Nat) : Outcome (Option Nat) :=
+  if altitude > 1 then do
+    let a ← subU altitude 1
+    let b ← mulU 16 a 32
+    let c ← addU 16 b 16
+    let d ← divU c 100
+    let e ← mulU 16 d 100
+    pure (some e)
+  else .ok none
+
+/-- numerator of the `f32` literal `0.8` over `2^24` (`0.8_f32 = 13421773 / 2^24`) -/
+def f32_0_8_num : Nat := 13421773
+
+/-- `800.0 + ((qnh - 1) as f32) * 0.8` evaluated in single precision, as the exact rational
+    `num / 2^24`: the product `(qnh-1) * 0.8_f32` is rounded to `f32`, then the sum is rounded
+    to `f32` (round-to-nearest-even, `roundF32` of Model/Altitude).  `qnh ≥ 1`. -/
+def qnhF32Num (qnh : Nat) : Nat :=
+  let prod := (roundF32 ((qnh - 1) * f32_0_8_num) 24).1
+  (roundF32 (800 * 2 ^ 24 + prod) 24).1
+def qnhDen : Nat := 2 ^ 24
+
+/-- the value the formula denotes over the reals, `800 + 0.8 (qnh - 1)`, in tenths of a millibar
+    (for the range / round-trip theorems; the `f32` result differs from it by < 1e-4 mbar) -/
+def qnhIdealTenths (qnh : Nat) : Nat := 8000 + 8 * (qnh - 1)
+
+/-- `barometric_setting` (the closure takes a `u32`; `qnh - 1` is guarded by `qnh == 0`) -/
+def barometricSetting (qnh : Nat) : Outcome (Option (Nat × Nat)) :=
+  if qnh == 0 then .ok none else do
+    let _ ← subU qnh 1
+    pure (some (qnhF32Num qnh, qnhDen))
+
+/-- `selected_heading`: `heading as f32 * 180.0 / 256.0` — exact in `f32`
+    (`heading * 180 ≤ 91980 < 2^24`, division by `2^8`) -/
+def headingNum (heading : Nat) : Nat := heading * 180
+def headingDen : Nat := 256
+
+/-- the four-plus-one mode flags: `if mode_status { Some(val) } else { None }` -/
+def modeFlag (modeStatus val : Bool) : Option Json := if modeStatus then some (jbool val) else none
+
+/-- serde name of `AltSource` (`MCP` is renamed, `FMS` keeps its identifier) -/
+def altSourceName (v : Nat) : Key := if v == 0 then key! "MCP/FCU" else key! "FMS"
+
+/-- `TargetStateAndStatusInformation`, starting right after the 5-bit type code -/
+def read : R SerFields := do
+  let _subtype ← bits 2
+  pad 1
+  let src ← enumId 1
+  let altRaw ← bits 11
+  let alt ← R.lift (selectedAltitude altRaw)
+  let qnhRaw ← bits 9
+  let qnh ← R.lift (barometricSetting qnhRaw)
+  let hdgStatus ← flag
+  let hdgRaw ← bits 9
+  let nacp ← bits 4
+  let _nicBaro ← flag
+  let _sil ← bits 2
+  let modeStatus ← flag
+  let autopilot ← flag
+  let vnav ← flag
+  let altHold ← flag
+  let _imf ← flag
+  let approach ← flag
+  let tcas ← flag
+  let lnav ← flag
+  pad 2
+  pure <| .ok [
+    fld (key! "source") (.lit (altSourceName src)),
+    skipNone (key! "selected_altitude") (alt.map jnat),
+    skipNone (key! "barometric_setting") (qnh.map fun (n, d) => jrat n d),
+    skipNone (key! "selected_heading") (if hdgStatus then some (jrat (headingNum hdgRaw) headingDen) else none),
+    fld (key! "NACp") (jnat nacp),
+    skipNone (key! "autopilot") (modeFlag modeStatus autopilot),
+    skipNone (key! "vnav_mode") (modeFlag modeStatus vnav),
+    skipNone (key! "alt_hold") (modeFlag modeStatus altHold),
+    skipNone (key! "approach_mode") (modeFlag modeStatus approach),
+    fld (key! "tcas_operational") (jbool tcas),
+    skipNone (key! "lnav_mode") (modeFlag modeStatus lnav) ]
 
 end Rs1090.Model.Bds62
